@@ -493,7 +493,15 @@ def rule_f(ctx, ix):
     dom = cfg.dominators()
     stores = cfg.find(lambda st: isinstance(st, ast.Assign) and isinstance(st.targets[0], ast.Subscript)
                       and unparse(st.targets[0].value).endswith('._objs'))
-    loops = cfg.find(lambda st: isinstance(st, ast.For) and isinstance(st.iter, ast.Name) and st.iter.id == 'gen')
+    # the generator kept aside when the loader yielded: a name bound in the statement that calls next() on the loader's result
+    gens = set()
+    for st in ast.walk(f.node):
+        if isinstance(st, ast.Assign) and any(isinstance(c, ast.Call) and isinstance(c.func, ast.Name) and c.func.id == 'next' for c in ast.walk(st.value)):
+            for t in st.targets:
+                for n in ast.walk(t):
+                    if isinstance(n, ast.Name):
+                        gens.add(n.id)
+    loops = cfg.find(lambda st: isinstance(st, ast.For) and isinstance(st.iter, ast.Name) and st.iter.id in gens)
     if not stores or not loops:
         raise AnalysisError('GlueUnSerializer.object: registration store or resume loop not recognised')
     # the store is conditional on isinstance(obj_id, str); its *guard* must dominate the loop and the store must precede it
